@@ -453,7 +453,8 @@ fn eval_inner(case: &Case, clock: &Clock, ex: &mut Exec, age: &mut u64) -> Verdi
             },
             expect_msid: match &concrete {
                 Concrete::SendMedia { stream_id, .. } => Some(*stream_id),
-                Concrete::Accept(id) => match model.outstanding.get(id) {
+                Concrete::FinishPlaying(stream_id) => Some(*stream_id),
+                Concrete::Accept(id) | Concrete::Reject(id) => match model.outstanding.get(id) {
                     Some(Req::Publish(s, _)) | Some(Req::Play(s, _)) => Some(*s),
                     _ => None,
                 },
